@@ -544,6 +544,16 @@ def check_device(ctx, tag, **cfg):
     ut = usb.attrs.get('utmi')
     ok = isinstance(ck.get('utmi'), (E, Obj)) and isinstance(ut, (E, Obj)) and (ck['utmi'] is ut or (isinstance(ut, E) and isinstance(ck['utmi'], E) and ck['utmi'].canon() == ut.canon()))
     ctx.ob('C57.bus', K + '.control-endpoint.utmi', ok, ctrl.loc, 'the control endpoint decodes SETUP packets from the UTMI bus of the device: %r vs %r' % (ck.get('utmi'), ut))
+    # the control endpoint cuts its data stages into packets of its own max_packet_size; the host cuts them at the
+    # bMaxPacketSize0 the device descriptor announces (usb_protocol default: 64) -- the two must agree, whatever packet
+    # size the bulk endpoints were configured with
+    ep0 = pval(ctrl.attrs.get('_max_packet_size')) if hasattr(ctrl, 'attrs') else None
+    if ep0 is None:
+        ep0 = pval(ck.get('max_packet_size'))
+    announced = fld(dd[0], 'bMaxPacketSize0', 64) if dd else None
+    ctx.ob('C57.ep0-packet-size', K + '.control-endpoint.max_packet_size', isinstance(ep0, int) and ep0 == announced, ctrl.loc,
+           'the control endpoint is built with max_packet_size %r, the device descriptor announces bMaxPacketSize0 = %r: GET_DESCRIPTOR '
+           'data stages longer than one packet are cut at the wrong size and the device does not enumerate' % (ep0, announced))
 
     handlers = ctrl.attrs.get(registry_attr(ctx, 'USBControlEndpoint', 'add_request_handler', 'usb2.control'))
     ctx.need(isinstance(handlers, list) and all(isinstance(h, Obj) and h.cls is not None for h in handlers), 'request handlers of the control endpoint')
@@ -727,8 +737,9 @@ def check_plumbing(ctx):
 def run(ctx):
     _DRV.clear()
     check_device(ctx, '')
+    check_device(ctx, '[max_packet_size=512]', max_packet_size=512)      # a documented non-default configuration
     check_acm(ctx)
     check_plumbing(ctx)
     if ctx.tier == 'thorough':
-        for mps in (256, 512):
+        for mps in (256,):
             check_device(ctx, '[max_packet_size=%d]' % mps, max_packet_size=mps)
